@@ -60,7 +60,14 @@ def snap_command(input_workload, output_file, ticks_per_second, force=False):
             # Modify arrival_seconds if it's set (not empty)
             if row['arrival_seconds'].strip():
                 original = float(row['arrival_seconds'])
-                snapped = math.floor(original * ticks_per_second) / ticks_per_second
+                # tick k starts at k / ticks_per_second; original * ticks_per_second
+                # can be off by one ulp either way, so correct the candidate
+                tick = math.floor(original * ticks_per_second)
+                if (tick + 1) / ticks_per_second <= original:
+                    tick += 1
+                elif tick / ticks_per_second > original:
+                    tick -= 1
+                snapped = tick / ticks_per_second
                 row['arrival_seconds'] = snapped
 
             writer.writerow(row)
